@@ -17,12 +17,30 @@ Engine T (input-history tree), exact-rational oracle.
 (iii) Operation histories on ONE object.  "The record" of a signal object is its current record,
      also after `reset_values()`: every measure is a function of (current record, dt) and of nothing
      the object has seen before.  (i) every word of length >= 3 is reached on a reused AccSignal
-     along the tree edge from its parent (parent -> measures -> reset_values(word) -> measures:
-     longer record) and the parent is reached back from the word (shorter record, handed over
-     as a Python list of ints); all six series are compared with the exact reference of the
-     CURRENT record.  (ii) for the configurations with at most REUSE_CAP words every word is
+     along the tree edge from its parent: another record of the parent's length -> measures ->
+     reset_values(parent) (same length) -> measures -> reset_values(word) (longer record) -> measures
+     -> reset_values(parent as a Python list of ints) (shorter record) -> measures; all six series
+     are compared with the exact reference of the CURRENT record.  (ii) for the configurations with at most REUSE_CAP words every word is
      evaluated on one reused AccSignal after a shorter (2 s) and after a one second longer
      record (and those after the word), with the full set of standardised-CAV sub-claims.
+     Before every record change of a history the object has had its public stat generators
+     (generate_cumulative_stats, generate_duration_stats, generate_all_motion_stats) called and all its
+     lazy properties read, and one step of every quadrature history replaces the record by another one of
+     the SAME length.
+(iv) Ownership of results and call patterns.  A measure is a function of the record, so what the caller
+     does with a returned series cannot matter: on the float64 object of every word each measure is called,
+     the returned array is overwritten in place, the measure is evaluated on ANOTHER object whose record
+     has the same length and the same first and last sample (A-B-A) and then again on the first object -
+     the result must be the first one (private copy).  Same for the standardised CAV on the reused object.
+(v)  Containers and magnitudes: int64, int8 and (non-negative words) uint8 records; scale factors 1e-9 and
+     1e+6 in the scaling relation (the laws are exact power laws, nothing is "close enough to zero").
+(vi) Exact tie on the standardised-CAV gate: the level t = fl(0.025*9.81) m/s2 satisfies fl(t/9.81) == 0.025
+     bit for bit (verified at import, otherwise the family is disabled) and exceeds 0.24525 in exact
+     arithmetic, so a window whose peak is t REACHES 0.025 g under the exact and under the floating-point
+     reading alike.  All words over {0.025 g, 0.02 g, 0, -0.025 g} (as many of these levels as fit the
+     cap) for every configuration of the menu: every qualifying window qualifies through the tie only.
+     Next to the gate: the same enumeration (smaller cap) over {0.025(1+1e-7) g, 0.025(1-1e-7) g, 0,
+     -0.025(1+1e-7) g} - decided comparisons a relative 1e-7 above / below the gate.
 """
 import itertools
 from fractions import Fraction
@@ -36,7 +54,11 @@ from ..refs import im_ref
 
 SIGMA = (-2, -1, 0, 1, 2)
 DTS = (0.005, 0.01, 0.5)
-ALPHAS = (-1.0, 2.0, -3.0, 0.5)
+ALPHAS = (-1.0, 2.0, -3.0, 0.5, 1e-9, 1e6)
+# integer-typed records next to float64: (tag, dtype, words it can hold)
+INT_ENTRIES = (('i64', np.int64, lambda w: True), ('i8', np.int8, lambda w: True),
+               ('u8', np.uint8, lambda w: min(w) >= 0))
+SCRIBBLE = -7.5      # what the caller writes into a returned series before asking again
 PADS = (1, 2, 5)
 
 # name, homogeneity degree (2: energy type, 1: CAV type), acceleration based
@@ -71,6 +93,28 @@ MONO_RTOL = 1e-12    # a decrease below this fraction of the series peak is roun
 REUSE_CAP = {'quick': 4096, 'thorough': 65536}
 PRIOR_LEVELS = (3, 2)    # indices into LV100: the other records of a history alternate 0.05 g / -0.03 g
 
+# exact tie on the gate.  0.025 g is not a binary fraction of m/s2, but the double t = fl(0.025*9.81)
+# (a) gives fl(t/9.81) == fl(0.025) bit for bit, (b) is the double every formulation of the gate in m/s2 uses
+# (|a| >= 0.025*9.81), (c) still reaches the gate when multiplied by the reciprocal of g, and (d) is larger
+# than 0.24525 in exact arithmetic: whichever way the comparison is read, a window whose peak is t reaches
+# 0.025 g.  Verified here; if any of it fails on a platform the family is skipped (counted as disabled).
+TIE_FLOAT = 0.025 * 9.81
+TIE_OK = bool(TIE_FLOAT / 9.81 == 0.025 and abs(-TIE_FLOAT) / 9.81 == 0.025
+              and float((np.abs(np.array([TIE_FLOAT, -TIE_FLOAT])) / 9.81).min()) == 0.025
+              and float((np.abs(np.array([TIE_FLOAT, -TIE_FLOAT])) / 9.81).max()) == 0.025
+              and TIE_FLOAT * (1 / 9.81) >= 0.025 and Fraction(TIE_FLOAT) >= Fraction(24525, 100000)
+              and Fraction(TIE_FLOAT) / Fraction(24525, 100000) - 1 < Fraction(1, 10 ** 12))
+TIE_LV = (Fraction(5, 2), 2, 0, -Fraction(5, 2))       # units of 0.01 g; the first two are always present
+TIE_LV_FLOAT = (TIE_FLOAT, float(Fraction(2, 100) * im_ref.G), 0.0, -TIE_FLOAT)
+TIE_CAP = {'quick': 4096, 'thorough': 65536}
+# "nearly equal but different": levels a relative 1e-7 below / above the gate (decided comparisons: the gap is
+# far above round-off, and far below any "close enough" tolerance).  Same enumeration with a smaller cap.
+NEAR_REL = Fraction(1, 10 ** 7)
+NEAR_LV = (Fraction(5, 2) * (1 + NEAR_REL), Fraction(5, 2) * (1 - NEAR_REL), 0, -Fraction(5, 2) * (1 + NEAR_REL))
+NEAR_LV_FLOAT = tuple(float(v / 100 * im_ref.G) for v in NEAR_LV)
+NEAR_CAP = {'quick': 1024, 'thorough': 16384}
+TIE_DISABLED = 'exact-tie family: fl(0.025*9.81)/9.81 != 0.025 on this platform'
+
 
 def cavdp_configs(tier):
     """(dt, seconds, extra, n, number of levels used).  All words over the 4-level alphabet
@@ -94,32 +138,64 @@ def cavdp_configs(tier):
 
 def build(tier, seed):
     L = 5 if tier == 'quick' else 7
-    cases = [{'k': 'quad', 'w': list(w)} for w in words(SIGMA, 2, L)]
+    cases = [{'k': 'quad', 'w': list(w)} for w in words(SIGMA, 1, L)]
     cfgs = cavdp_configs(tier)
     for dt, sec, extra, n, nl in sorted(cfgs, key=lambda c: (c[3], c[4], -c[0])):
         suf = min(n, 4 if nl == 4 else 5)
         for pre in itertools.product(range(nl), repeat=n - suf):
             cases.append({'k': 'cavdp', 'dt': dt, 'n': n, 'levels': nl, 'pre': list(pre),
                           'reuse': nl ** n <= REUSE_CAP[tier]})
+    tie_cfgs = []
+    for dt, sec, extra, n, _ in sorted(cfgs, key=lambda c: (c[3], -c[0])):
+        nl = max([k for k in (4, 3, 2) if k ** n <= TIE_CAP[tier]] or [0])
+        if nl:
+            tie_cfgs.append((dt, sec, extra, n, nl))
+            suf = min(n, 5)
+            for pre in itertools.product(range(nl), repeat=n - suf):
+                cases.append({'k': 'cavdp-tie', 'dt': dt, 'n': n, 'levels': nl, 'pre': list(pre)})
+    n_tie = sum(nl ** n for _, _, _, n, nl in tie_cfgs)
+    near_cfgs = []
+    for dt, sec, extra, n, _ in sorted(cfgs, key=lambda c: (c[3], -c[0])):
+        nl = max([k for k in (4, 3, 2) if k ** n <= NEAR_CAP[tier]] or [0])
+        if nl:
+            near_cfgs.append((dt, sec, extra, n, nl))
+            suf = min(n, 5)
+            for pre in itertools.product(range(nl), repeat=n - suf):
+                cases.append({'k': 'cavdp-near', 'dt': dt, 'n': n, 'levels': nl, 'pre': list(pre)})
+    n_near = sum(nl ** n for _, _, _, n, nl in near_cfgs)
     n_dp = sum(nl ** n for _, _, _, n, nl in cfgs)
     reuse_cfgs = [c for c in cfgs if c[4] ** c[3] <= REUSE_CAP[tier]]
     return {
         'cases': cases,
-        'rule': '(i) all words over {-2..2} of length 2..%d (one pool case per word) x dt in %s x {float64, int64 '
-                'record} x 6 measures, relations alpha in %s and zero padding k in %s for words ending at 0; '
+        'rule': '(i) all words over {-2..2} of length 1..%d (one pool case per word) x dt in %s x {float64, int64, '
+                'int8, uint8 (non-negative words) record} x 6 measures, relations alpha in %s and zero padding k in %s '
+                'for words ending at 0; '
                 '(ii) standardised CAV: all %d words over levels {0, 0.02g, -0.03g, 0.05g} for the (dt, seconds, '
                 'extra sample) configurations listed under bounds (one pool case = all words sharing a prefix); '
-                '(iii) histories on one reused AccSignal: (i) parent -> word -> parent along every tree edge between '
-                'lengths >= 2 (all 6 measures against the exact reference of the current record), (ii) for the %d '
+                '(iii) histories on one reused AccSignal: (i) other record -> parent -> word -> parent along every tree '
+                'edge between lengths >= 2 (all 6 measures against the exact reference of the current record), (ii) for the %d '
                 'configurations with <= %d words: every word after a 2 s record and after a one second longer record '
-                '(and those records after the word); '
+                '(and those records after the word), the stat generators called and the lazy properties read before '
+                'every record change, one same-length record change per quadrature history; (iv) every measure '
+                'called again on the same object after its returned array was overwritten in place and after a '
+                'call on another object with a record of the same length and end samples (A-B-A); (vi) exact tie '
+                'on the gate: all %d words over {0.025 g exactly, 0.02 g, 0, -0.025 g} for the configurations '
+                'listed under bounds, and all %d words over {0.025(1+1e-7) g, 0.025(1-1e-7) g, 0, -0.025(1+1e-7) g}; '
                 'non-trivial = record not identically zero'
-                % (L, list(DTS), list(ALPHAS), list(PADS), n_dp, len(reuse_cfgs), REUSE_CAP[tier]),
+                % (L, list(DTS), list(ALPHAS), list(PADS), n_dp, len(reuse_cfgs), REUSE_CAP[tier], n_tie, n_near),
         'bounds': {'alphabet': SIGMA, 'max_len': L, 'dt': DTS, 'alpha': ALPHAS, 'zero_padding': PADS,
                    'cavdp_levels_in_g': [0, 0.02, -0.03, 0.05], 'cavdp_gate_g': 0.025,
                    'cavdp_configs(dt,seconds,extra_sample,n,levels_used)': cfgs, 'cavdp_words': n_dp,
                    'cavdp_reused_object_configs': reuse_cfgs, 'cavdp_reused_object_max_words': REUSE_CAP[tier],
-                   'cavdp_reused_object_other_records': 'alternating 0.05 g / -0.03 g, lengths 2 s and word + 1 s'},
+                   'cavdp_reused_object_other_records': 'alternating 0.05 g / -0.03 g, lengths 2 s and word + 1 s',
+                   'integer_record_dtypes': ['int64', 'int8', 'uint8 (non-negative words)'],
+                   'cavdp_exact_tie_level_m_s2': TIE_FLOAT, 'cavdp_exact_tie_verified': TIE_OK,
+                   'cavdp_exact_tie_levels_in_0.01g': [float(v) for v in TIE_LV],
+                   'cavdp_exact_tie_configs(dt,seconds,extra_sample,n,levels_used)': tie_cfgs,
+                   'cavdp_exact_tie_words': n_tie,
+                   'cavdp_near_gate_levels_in_0.01g': [float(v) for v in NEAR_LV],
+                   'cavdp_near_gate_configs(dt,seconds,extra_sample,n,levels_used)': near_cfgs,
+                   'cavdp_near_gate_words': n_near},
         'required_classes': ['quad-mixed-sign-acc', 'quad-velocity-sign-change', 'quad-zero-append', 'quad-scaling',
                              'quad-sign-reversal', 'quad-int-input', 'quad-zero-record',
                              'cavdp-none-qualify', 'cavdp-some-qualify', 'cavdp-all-qualify',
@@ -127,7 +203,15 @@ def build(tier, seed):
                              'cavdp-lower-bound-positive', 'cavdp-sub-gate-window-skipped',
                              'quad-reused-object-longer-record', 'quad-reused-object-shorter-record',
                              'quad-reused-object-int-list', 'cavdp-reused-object-longer-record',
-                             'cavdp-reused-object-shorter-record', 'cavdp-reused-object-same-length'],
+                             'cavdp-reused-object-shorter-record', 'cavdp-reused-object-same-length',
+                             'quad-one-sample', 'quad-int8-input', 'quad-uint8-input', 'quad-tiny-scale',
+                             'quad-huge-scale', 'quad-result-overwritten', 'quad-aba-same-length-and-ends',
+                             'quad-reused-object-same-length', 'quad-reused-object-after-stat-generators',
+                             'cavdp-result-overwritten', 'cavdp-reused-object-after-stat-generators',
+                             'cavdp-reused-object-list-record', 'cavdp-near-gate-qualifies',
+                             'cavdp-near-gate-just-below-skipped', 'cavdp-near-gate-none']
+                            + (['cavdp-exact-tie-qualifies', 'cavdp-exact-tie-some-qualify',
+                                'cavdp-exact-tie-end-sample-decides', 'cavdp-exact-tie-none'] if TIE_OK else []),
         'assumptions': [
             'sample values outside the alphabets, lengths above the bound and dt outside the menus are not examined',
             'reference: exact rational running integrals (fractions.Fraction); tolerance 1e-9 of the series peak',
@@ -136,7 +220,20 @@ def build(tier, seed):
             'last element is the stated full rectangle sum over a series of record length',
             'non-decreasing is asserted up to round-off (a decrease below 1e-12 of the series peak is ignored)',
             'standardised CAV: one-second windows are the aligned windows [i, i+1] s, i < floor(duration), each '
-            'including both end samples; no level lies on the 0.025 g gate (a rounding-level tie)',
+            'including both end samples; the main family keeps every level off the 0.025 g gate',
+            'exact tie on the gate: "reaches 0.025 g" is inclusive.  The level fl(0.025*9.81) = %r m/s2 divided by '
+            '9.81 is the double 0.025 bit for bit, equals the gate expressed in m/s2, and exceeds 0.24525 in exact '
+            'arithmetic (checked at import: %s); a window whose largest |a| is this level qualifies.  The bounds of '
+            'the windowed sum are computed for 0.025 g exactly (relative difference 1e-16)' % (TIE_FLOAT, TIE_OK),
+            'levels a relative 1e-7 above / below the gate are decided comparisons (gap far above round-off): the '
+            'window qualifies / does not qualify',
+            'a returned series belongs to the caller: overwriting it in place must not change what a later call '
+            'returns (compared with a private copy of the first result, round-off tolerance)',
+            'narrow integer records (int8, uint8) are examined for the alphabet values only (|a| <= 2): on the '
+            'unchanged tree a**2 and the pairwise sums of the trapezoid rule are evaluated in the record dtype and '
+            'wrap around for larger values (reported separately)',
+            'the stat generators / lazy properties called between the steps of a history are not themselves '
+            'checked here (exceptions they raise are ignored); only the measures that follow are',
             'zero padding is checked for the acceleration based quadrature measures only (Arias, CAV, int|a|)',
             'the record of a signal object is its current record: after reset_values(new record) every measure '
             'is that of the new record (same claims, same tolerances as for a freshly constructed object); the '
@@ -160,13 +257,50 @@ def _monotone(r, claim, sub, arr, peak):
     r.expect(claim, sub, ok, 'series decreases', observed=arr)
 
 
+STAT_GENERATORS = ('generate_cumulative_stats', 'generate_duration_stats', 'generate_all_motion_stats',
+                   'generate_displacement_and_velocity_series')
+LAZY = ('time', 'npts', 'velocity', 'displacement', 'pga', 'pgv', 'pgd', 'arias_intensity', 'cav')
+
+
+def _touch(sig):
+    """Part of an object's history: the public (partly deprecated) methods that store derived data on the
+    object, and a read of every lazy property.  They are not under test here: whatever they do or raise,
+    the measures evaluated afterwards must be those of the record the object holds then."""
+    for nm in STAT_GENERATORS:
+        try:
+            getattr(sig, nm)()
+        except Exception:   # noqa
+            pass
+    for nm in LAZY:
+        try:
+            getattr(sig, nm)
+        except Exception:   # noqa
+            pass
+
+
+def _other_record(v):
+    """A record of the same length that differs from v in every cumulative series (3*reversed+1 has no
+    fixed point over the integers)."""
+    return [3 * x + 1 for x in reversed(v)]
+
+
+def _companion(w):
+    """Same length, same first and last sample, every interior sample changed (cyclic shift of the
+    alphabet); None when there is no interior sample."""
+    if len(w) < 3:
+        return None
+    return [w[0]] + [(x + 3) % 5 - 2 for x in w[1:-1]] + [w[-1]]
+
+
 def _quad_history(r, w, dt, reff):
-    """parent = w[:-1] -> all measures -> reset_values(w) -> all measures -> reset_values(parent as a
+    """other record of the parent's length -> all measures, stat generators, lazy properties ->
+    reset_values(parent = w[:-1]) -> all measures ... -> reset_values(w) -> ... -> reset_values(parent as a
     Python list of ints) -> all measures, on one AccSignal.  The exact reference of the parent is the
     prefix of the reference of w (running integrals are causal)."""
     n = len(w)
     parent = list(w[:-1])
-    steps = (('parent', None, n - 1),
+    steps = (('other', None, n - 1),
+             ('same-length', lambda: np.array(parent, dtype=float), n - 1),
              ('longer', lambda: np.array(w, dtype=float), n),
              ('shorter', lambda: list(parent), n - 1))
     sig = None
@@ -176,15 +310,27 @@ def _quad_history(r, w, dt, reff):
         sub0 = {'w': w, 'dt': dt, 'history': hist}
         r.states += 1
         if make is None:
-            ok, sig = r.call('construct', sub0, eqsig.AccSignal, np.array(parent, dtype=float), dt)
+            ok, sig = r.call('construct', sub0, eqsig.AccSignal, np.array(_other_record(parent), dtype=float), dt)
+            if not ok:
+                return
+            for name, deg, accb in MEASURES:
+                try:
+                    FUNCS[name](sig)
+                    r.evals += 1
+                except Exception:   # noqa  (the other record is checked in its own right elsewhere)
+                    pass
+            _touch(sig)
+            continue
+        r.transitions += 1
+        ok, _ = r.call('reuse.reset_values', sub0, sig.reset_values, make())
+        r.cls('quad-reused-object-after-stat-generators')
+        if tag == 'longer':
+            r.cls('quad-reused-object-longer-record')
+        elif tag == 'same-length':
+            r.cls('quad-reused-object-same-length')
         else:
-            r.transitions += 1
-            ok, _ = r.call('reuse.reset_values', sub0, sig.reset_values, make())
-            if tag == 'longer':
-                r.cls('quad-reused-object-longer-record')
-            else:
-                r.cls('quad-reused-object-shorter-record')
-                r.cls('quad-reused-object-int-list')
+            r.cls('quad-reused-object-shorter-record')
+            r.cls('quad-reused-object-int-list')
         if not ok:
             return
         for name, deg, accb in MEASURES:
@@ -199,6 +345,18 @@ def _quad_history(r, w, dt, reff):
             peak = float(np.max(np.abs(want)))
             r.expect_close('reuse.' + name, sub, arr, want, rtol=RTOL, scale=peak)
             _monotone(r, 'reuse.monotone.' + name, sub, arr, peak)
+        _touch(sig)
+
+
+def _scribble(out):
+    """Overwrite a returned series in place, as a caller normalising / reusing the buffer would."""
+    try:
+        if isinstance(out, np.ndarray) and out.size and out.flags.writeable:
+            out[...] = SCRIBBLE
+            return True
+    except Exception:   # noqa
+        pass
+    return False
 
 
 def run_quad(w):
@@ -211,8 +369,11 @@ def run_quad(w):
         r.cls('quad-zero-record')
     if min(w) < 0 < max(w):
         r.cls('quad-mixed-sign-acc')
+    if n == 1:
+        r.cls('quad-one-sample')
     a_f = np.array(w, dtype=float)
-    a_i = np.array(w, dtype=np.int64)
+    entries = [('f64', a_f)] + [(tag, np.array(w, dtype=dt_)) for tag, dt_, fits in INT_ENTRIES if fits(w)]
+    comp = _companion(w)
     ends_zero = (w[-1] == 0)
     for dt in DTS:
         h = frac(dt)
@@ -227,10 +388,12 @@ def run_quad(w):
         if min(vel) < 0 < max(vel):
             r.cls('quad-velocity-sign-change')
         base = {}
-        for entry, arr_in in (('f64', a_f), ('i64', a_i)):
+        first = {}
+        sig_f = None
+        for entry, arr_in in entries:
             r.states += 1
-            if entry == 'i64':
-                r.cls('quad-int-input')
+            if entry != 'f64':
+                r.cls({'i64': 'quad-int-input', 'i8': 'quad-int8-input', 'u8': 'quad-uint8-input'}[entry])
             ok, sig = r.call('construct', {'w': w, 'dt': dt, 'entry': entry}, eqsig.AccSignal, arr_in.copy(), dt)
             if not ok:
                 continue
@@ -248,7 +411,39 @@ def run_quad(w):
                 r.expect_close('final.' + name, sub, arr[-1], want[-1], rtol=RTOL, scale=peak)
                 _monotone(r, 'monotone.' + name, sub, arr, peak)
                 if entry == 'f64':
-                    base[name] = arr
+                    base[name] = arr.copy()     # private copy: `out` itself is handed back to "the caller" below
+                    first[name] = out
+                    sig_f = sig
+        # ownership of results / A-B-A: overwrite the returned series in place, evaluate the measure on another
+        # object whose record shares length, first and last sample, ask the first object again
+        if sig_f is not None:
+            sig_b = None
+            if comp is not None:
+                ok, sig_b = r.call('construct', {'w': w, 'dt': dt, 'companion': comp}, eqsig.AccSignal,
+                                   np.array(comp, dtype=float), dt)
+                if not ok:
+                    sig_b = None
+            for name, deg, accb in MEASURES:
+                if name not in first:
+                    continue
+                sub = {'w': w, 'dt': dt, 'measure': name, 'sequence': 'call, overwrite result, call on companion, call',
+                       'companion': comp}
+                r.transitions += 1
+                if _scribble(first[name]):
+                    r.cls('quad-result-overwritten')
+                else:
+                    r.disabled['returned series is not a writable ndarray'] += 1
+                if sig_b is not None:
+                    r.cls('quad-aba-same-length-and-ends')
+                    try:
+                        r.evals += 1
+                        FUNCS[name](sig_b)
+                    except Exception:   # noqa  (the companion word is checked in its own pool case)
+                        pass
+                ok, out = r.call('repeat.' + name, sub, FUNCS[name], sig_f)
+                if ok:
+                    r.expect_close('repeat.' + name, sub, out, base[name], rtol=REL_RTOL,
+                                   what='second call on the same object differs from the first result')
         # operation history on ONE object (tree edge parent -> word and back): the series are those of
         # the object's current record, whatever it held and whatever was computed on it before
         if n >= 3:
@@ -256,7 +451,8 @@ def run_quad(w):
         # relations between executions: a -> alpha * a
         for alpha in ALPHAS:
             r.transitions += 1
-            r.cls('quad-sign-reversal' if alpha == -1.0 else 'quad-scaling')
+            r.cls('quad-sign-reversal' if alpha == -1.0 else 'quad-tiny-scale' if abs(alpha) < 1e-6 else
+                  'quad-huge-scale' if abs(alpha) > 1e5 else 'quad-scaling')
             ok, sig = r.call('construct', {'w': w, 'dt': dt, 'alpha': alpha}, eqsig.AccSignal, alpha * a_f, dt)
             if not ok:
                 continue
@@ -340,9 +536,15 @@ class _Reused(object):
         self.sig = None
         self.prev = None        # levels (0.01 g) of the record the object held at the previous step
 
-    def step(self, lv, rf):
+    def step(self, lv, rf, again=False, as_list=False):
+        """again: after the checked call overwrite the returned series in place and call once more (must
+        return the first result), then call the stat generators / read the lazy properties (history of the
+        next step).  as_list: the record is handed over as a Python list of floats."""
         r = self.r
         acc = np.array([LV_OF[v] for v in lv])
+        if as_list:
+            acc = acc.tolist()
+            r.cls('cavdp-reused-object-list-record')
         sub = {'dt': self.dt, 'levels_in_0.01g': list(lv), 'previous_levels_in_0.01g': self.prev}
         r.states += 1
         if self.sig is None:
@@ -364,6 +566,21 @@ class _Reused(object):
         ok, out = r.call('reuse.cavdp', sub, im.calc_cav_dp, self.sig)
         if ok:
             _check_cavdp(r, 'reuse.', sub, out, len(lv), rf)
+        if again:
+            if ok:
+                keep = np.array(out, dtype=float, copy=True) if to_array(out) is not None else None
+                if keep is not None and _scribble(out):
+                    r.cls('cavdp-result-overwritten')
+                    r.transitions += 1
+                    sub2 = dict(sub, sequence='call, overwrite result, call')
+                    ok, out2 = r.call('repeat.cavdp', sub2, im.calc_cav_dp, self.sig)
+                    if ok:
+                        r.expect_close('repeat.cavdp', sub2, out2, keep, rtol=REL_RTOL,
+                                       what='second call on the same object differs from the first result')
+                else:
+                    r.disabled['returned series is not a writable ndarray'] += 1
+            _touch(self.sig)
+            r.cls('cavdp-reused-object-after-stat-generators')
 
 
 def _prior(m):
@@ -424,17 +641,69 @@ def run_cavdp(case):
         if reused is not None:
             # history on the one reused object: (2 s record | previous word) -> word -> longer record
             # -> word -> 2 s record; each step checked against the exact reference of its own record
-            reused.step(lv, rf)
+            reused.step(lv, rf, again=True)
             reused.step(lv_long, rf_long)
-            reused.step(lv, rf)
+            reused.step(lv, rf, as_list=True)
             if lv_short:
                 reused.step(lv_short, rf_short)
+    return r
+
+
+def run_cavdp_tie(case):
+    """Levels on the gate (exact tie, 'cavdp-tie') or a relative 1e-7 next to it ('cavdp-near'): all words over
+    the first `levels` entries of the family's alphabet sharing the prefix."""
+    r = Res()
+    dt = case['dt']
+    n = case['n']
+    nl = case['levels']
+    pre = tuple(case['pre'])
+    h = frac(dt)
+    pps = int(1 / h)
+    tie = case['k'] == 'cavdp-tie'
+    if tie and not TIE_OK:
+        r.disabled[TIE_DISABLED] += nl ** (n - len(pre))
+        return r
+    lvs, lvs_float = (TIE_LV, TIE_LV_FLOAT) if tie else (NEAR_LV, NEAR_LV_FLOAT)
+    for suf in itertools.product(range(nl), repeat=n - len(pre)):
+        x = pre + suf
+        lv = [lvs[i] for i in x]
+        sub = {'dt': dt, 'levels_in_0.01g': [float(v) for v in lv]}
+        if tie:
+            sub['exact_tie_level_m_s2'] = TIE_FLOAT
+        r.states += 1
+        r.nontrivial += 1            # the first two levels are non-zero
+        rf = im_ref.cav_dp_reference(lv, pps, h)
+        nq, nwin = rf['nq'], rf['nwin']
+        if not tie:
+            if nq == 0:
+                r.cls('cavdp-near-gate-none')
+            else:
+                r.cls('cavdp-near-gate-qualifies')
+                if rf['skipped_nonzero'] and 1 in x:
+                    r.cls('cavdp-near-gate-just-below-skipped')
+        elif nq == 0:
+            r.cls('cavdp-exact-tie-none')
+        else:
+            r.cls('cavdp-exact-tie-qualifies')         # every qualifying window does so through the tie only
+            if nq < nwin:
+                r.cls('cavdp-exact-tie-some-qualify')
+            if rf['end_decides']:
+                r.cls('cavdp-exact-tie-end-sample-decides')
+        acc = np.array([lvs_float[i] for i in x])
+
+        def go():
+            return im.calc_cav_dp(eqsig.AccSignal(acc, dt))
+        ok, out = r.call('cavdp', sub, go)
+        if ok:
+            _check_cavdp(r, '', sub, out, n, rf)
     return r
 
 
 def run_case(case):
     if case['k'] == 'quad':
         return run_quad(case['w'])
+    if case['k'] in ('cavdp-tie', 'cavdp-near'):
+        return run_cavdp_tie(case)
     return run_cavdp(case)
 
 
@@ -449,18 +718,29 @@ def snippet(case, v):
                 "s = eqsig.AccSignal(a, sub['dt'])\n"
                 "fs = (im.calc_arias_intensity, im.calc_cav, im.calc_isv, im.calc_integral_of_abs_acceleration,\n"
                 "      im.calc_integral_of_abs_velocity, im.calc_unit_kinetic_energy)\n"
-                "if 'history' in sub:   # one object: parent -> w -> parent (list of ints)\n"
-                "    s = eqsig.AccSignal(np.array(sub['w'][:-1], float), sub['dt'])\n"
-                "    for rec in [np.array(sub['w'], float), list(sub['w'][:-1])][:len(sub['history']) - 1]:\n"
-                "        [f(s) for f in fs]; s.reset_values(rec)\n"
+                "if 'history' in sub:   # one object: other -> parent -> w -> parent (list of ints)\n"
+                "    par = sub['w'][:-1]\n"
+                "    s = eqsig.AccSignal(np.array([3 * x + 1 for x in reversed(par)], float), sub['dt'])\n"
+                "    for rec in [np.array(par, float), np.array(sub['w'], float), list(par)][:len(sub['history']) - 1]:\n"
+                "        [f(s) for f in fs]\n"
+                "        for g in ('generate_cumulative_stats', 'generate_duration_stats', 'generate_all_motion_stats'):\n"
+                "            try: getattr(s, g)()\n"
+                "            except Exception: pass\n"
+                "        s.velocity, s.displacement, s.pga, s.pgv, s.pgd; s.reset_values(rec)\n"
+                "if 'sequence' in sub:   # call, overwrite the result, call on the companion record, call again\n"
+                "    b = eqsig.AccSignal(np.array(sub['companion'] or sub['w'], float), sub['dt'])\n"
+                "    for f in fs: o = f(s); print(f.__name__, 'first', o.copy()); o[...] = -7.5; f(b)\n"
                 "for f in (im.calc_arias_intensity, im.calc_cav, im.calc_isv, im.calc_integral_of_abs_acceleration,\n"
                 "          im.calc_integral_of_abs_velocity, im.calc_unit_kinetic_energy):\n"
                 "    print(f.__name__, f(s))\n" % (sub,))
     return ("import numpy as np, eqsig\nfrom eqsig import im\n"
             "sub = %r\n"
             "a = np.array(sub['levels_in_0.01g'], float) * 0.01 * 9.81\n"
+            "if 'exact_tie_level_m_s2' in sub:   # 2.5 stands for the double 0.025*9.81 (divided by 9.81: 0.025 exactly)\n"
+            "    a = np.array([np.sign(v) * 0.025 * 9.81 if abs(v) == 2.5 else v * 0.01 * 9.81 for v in sub['levels_in_0.01g']])\n"
             "s = eqsig.AccSignal(a, sub['dt'])\n"
             "if sub.get('previous_levels_in_0.01g'):   # history on one object\n"
             "    s = eqsig.AccSignal(np.array(sub['previous_levels_in_0.01g'], float) * 0.01 * 9.81, sub['dt'])\n"
-            "    im.calc_cav_dp(s); s.reset_values(a)\n"
+            "    im.calc_cav_dp(s); s.generate_cumulative_stats(); s.reset_values(a)\n"
+            "if 'sequence' in sub: o = im.calc_cav_dp(s); print('first', o.copy()); o[...] = -7.5\n"
             "print('cav_dp', im.calc_cav_dp(s))\nprint('cav/9.81', im.calc_cav(s)[-1] / 9.81)\n" % (sub,))
